@@ -57,6 +57,15 @@ func drawVerbs(t *rapid.T) *pbt.Case {
 	if verb != "v" && rapid.IntRange(0, 3).Draw(t, "flag+") == 0 {
 		flags = "+" + flags
 	}
+	// ... except next to '#': fmt documents that %#v is the Go-syntax
+	// representation, with or without '+'.
+	if verb == "v" && strings.Contains(flags, "#") && rapid.Bool().Draw(t, "plus-with-sharp") {
+		if rapid.Bool().Draw(t, "plus-first") {
+			flags = "+" + flags
+		} else {
+			flags += "+"
+		}
+	}
 	c.SetStr("format", "%"+flags+wp+verb)
 	return c
 }
@@ -95,6 +104,11 @@ func checkVerbs(c *pbt.Case, r *pbt.R) {
 				named := k == reflect.Ptr || k == reflect.Struct
 				if strings.Contains(got, "PANIC=") || got == "" || (format == "%#v" && named && !strings.Contains(got, tn)) {
 					r.Failf("%#v is not a Go-syntax dump of the error", "%s via %s: %.300q\nspec %s", format, tg.name, got, c.Spec)
+				}
+				if format == "%+#v" || format == "%#+v" {
+					if dump := fmt.Sprintf("%#v", tg.v); got != dump {
+						r.Failf("%#v is not a Go-syntax dump of the error", "%s via %s prints another text than %%#v:\n got %.300q\nwant %.300q\nspec %s", format, tg.name, got, dump, c.Spec)
+					}
 				}
 				continue
 			}
